@@ -87,6 +87,7 @@ type Exec struct {
 	assume   int // >0 while evaluating a clause that is being assumed
 	errs     []string
 	pend     []*pendingForall
+	latent   map[int]*pendingForall // skolemised foralls by result term, activated if assumed
 	skolems  []*Term
 	top0     *Term
 	frame    []frameLoc // modifies clause of the unit under verification (nil = no frame check)
@@ -817,7 +818,7 @@ func (x *Exec) runFunc(fn *ssa.Function, args []*Val, st *State, con *Contract, 
 	fr.unrollD = 12
 	if x.ghost > 0 {
 		fr.unrollD = 20
-	} else if x.unrollOverride > 0 && (fn == x.unitFn || x.inlineNames[fn.Name()] || fn.Parent() != nil) {
+	} else if x.unrollOverride > 0 && (fn == x.unitFn || x.inlineNames[fn.Name()] || fn.Origin() != nil && x.inlineNames[fn.Origin().Name()] || fn.Parent() != nil) {
 		// the harness's bound applies to the harness and the functions it executes itself, not
 		// to spec functions it evaluates on the way
 		fr.unrollD = x.unrollOverride
